@@ -129,6 +129,11 @@ fn known_records(s: &Svc) -> Vec<RR> {
         RR::new(full.clone(), true, 120, RData::Srv { prio: 0, weight: 0, port: s.port, target: host.clone() }),
         RR::new(full, true, 4500, RData::Txt(mdns_sd::verif::generate_txt(&info))),
     ];
+    // the answer to the service-type enumeration query, and the subtype pointer
+    v.push(RR::new(Name::from_escaped("_services._dns-sd._udp.local."), false, 4500, RData::Ptr(Name::from_escaped(&s.base_ty()))));
+    if s.ty != s.base_ty() {
+        v.push(RR::new(Name::from_escaped(&s.ty), false, 4500, RData::Ptr(Name::from_escaped(&s.fullname()))));
+    }
     for a in &s.addrs {
         v.push(RR::new(host.clone(), true, 120, match a {
             IpAddr::V4(x) => RData::A(x.octets()),
